@@ -44,6 +44,7 @@ void COSyncInit(CO_SYNC *sync, struct CO_NODE_T *node)
     }
     for (i = 0; i < CO_RPDO_N; i++) {
         sync->RPdo[i]  = (CO_RPDO *)0;
+        sync->RFrm[i].Identifier = 0;
     }
 }
 
@@ -78,6 +79,7 @@ void COSyncRemove (CO_SYNC *sync, uint16_t num, uint8_t msgType)
     /* receive pdo */
     if (msgType == CO_SYNC_FLG_RX) {
         sync->RPdo[num]  = 0;
+        sync->RFrm[num].Identifier = 0;
     }
 }
 
@@ -95,6 +97,7 @@ void COSyncRx(CO_SYNC *sync, CO_IF_FRM *frm)
                 sync->RFrm[i].Data[n] = frm->Data[n];
             }
             sync->RFrm[i].DLC = frm->DLC;
+            sync->RFrm[i].Identifier = frm->Identifier;
             break;
         }
     }
@@ -145,9 +148,11 @@ void COSyncHandler (CO_SYNC *sync)
     }
 
     for (i = 0; i < CO_RPDO_N; i++) {
-        if (sync->RPdo[i] != 0) {
+        if ((sync->RPdo[i] != 0) && (sync->RFrm[i].Identifier != 0)) {
+            /* apply each received frame once */
             CORPdoWrite(sync->RPdo[i], &sync->RFrm[i]);
             COPdoSyncUpdate(sync->RPdo[i]);
+            sync->RFrm[i].Identifier = 0;
         }
     }
 }
